@@ -3,6 +3,12 @@ from harness.drivers import network
 
 
 def run(ck):
+    # MC_Oddpos: the label resolution loop against the closed-form word semantics, every pair of label words
+    import os
+    cfg = os.path.join(ck.scratch, "MC_Oddpos.cfg")
+    open(cfg, "w").write("SPECIFICATION Spec\nCONSTANTS\n  Labels = {%s}\n  MaxLen = %d\nINVARIANT ResultIsSorted\nINVARIANT SameDenotation\n"
+                         "INVARIANT DistinctLabelsSorted\nCHECK_DEADLOCK FALSE\n" % (("1, 2, 3, 4", 4) if ck.tier == "quick" else ("1, 2, 3, 4, 5", 5)))
+    ck.model("MC_Oddpos.tla", cfg, timeout=3000)
     q = ck.tier == "quick"
     progs = network.route_programs(ck.seed, 100 if q else 2000, nroutes=5 if q else 8)
     ck.cov["rule"] = ("random fermionic networks (pairs with 1-2 bonds, chains of 3-4, triangles, stars; random bond orientation, "
